@@ -298,10 +298,13 @@ def release_case(r, ctx, i):
         text += '--- @bad\n'
     if mode in ('mid_document', 'error_mid_document'):
         text += '---\n- [a, {k: [v, w, {deep: [1, 2, 3]}]}]\n- tail\n' + ('- @bad\n' if mode == 'error_mid_document' else '')
-    for lname in yamlapi.loaders(['SafeLoader', 'CSafeLoader', 'Loader', 'CLoader']):
+    pytext = '--- [!!python/name:os.path.join, !!python/tuple [1, 2], !!python/complex 1+2j, !!python/name:yaml.YAMLError]\n'
+    for lname in yamlapi.loaders(['SafeLoader', 'CSafeLoader', 'Loader', 'CLoader', 'FullLoader', 'CFullLoader']):
         for op in OPS:
             binary = r.random() < 0.5
-            s = streams.ReadStream(text.encode() if binary else text, r.choice([None, [100]]))
+            # the loaders that resolve Python names get a first document that makes them do so (anything cached per loader keeps it alive)
+            text_l = (pytext + text) if not lname.endswith('SafeLoader') else text
+            s = streams.ReadStream(text_l.encode() if binary else text_l, r.choice([None, [100]]))
             ref = weakref.ref(s)
             case = {'mode': mode, 'op': op, 'loader': lname, 'binary': binary, 'text': text if len(text) < 1500 else None}
             ctx.crumb({'kind': 'release', 'mode': mode, 'op': op, 'loader': lname})
